@@ -4,11 +4,12 @@
    (Proofs/SearchModelBoundsRoot.v).  With a table holding only scores every value the aspiration loop
    sees lies in [-Inf, Inf]; this bounds the loop:
      a fail low needs alpha >= -Inf, a fail high needs beta <= Inf;  factor doubles at each failure and
-     the window is widened by 44 * factor:  with A = alpha + Inf, B = Inf - beta the invariant
-         A + B <= 19956 - 44 * factor,   A, B >= -22 * factor - 22,   factor a power of two <= 1024
-     holds ([win_ok]); a side that can still fail has A >= 0 (resp. B >= 0), hence factor <= 908, i.e.
-     factor <= 512, the product 44 * factor <= 22528 and the new bound >= -32528 (resp. <= 32528): no
-     int16 operation of the loop wraps, and beta + 1 * RFPScoreFactor fits int16 at depth 1.
+     the window is widened by W * factor (W = WindowSize):  with A = alpha + Inf, B = Inf - beta the invariant
+         A + B <= 2 Inf - W (factor + 1),   2 A, 2 B >= - W (factor + 1),   factor a power of two <= 1024
+     holds ([win_ok]); a side that can still fail has A >= 0 (resp. B >= 0), hence W (factor + 1) <= 4 Inf;
+     for the generated parameter values (W = 44: factor <= 512, W * factor <= 22528) the widening stays
+     inside int16 ([pows_alive], by computation on the generated constants): no int16 operation of the
+     loop wraps, and beta + 1 * RFPScoreFactor fits int16 at depth 1.
    A Search.Go with depth limit >= 1 that returns the null move without having been aborted accepted the
    iteration of depth 1 with an empty line; that root call stands on a final root or left its move loop
    with every move the picker handed out being illegal. *)
@@ -45,7 +46,7 @@ Lemma alphaBeta_root01 o fuel st b al be d v st' b' : good b -> state_ok st -> t
   tt_values_ok (s_tt st') /\
   (s_aborted st' = false ->
      score_ok v /\
-     (d = 1 -> -32768 <= be <= 32665 -> al < v < be -> Pv.active (s_pv st') = [] -> fin_or_no_legal st b)).
+     (d = 1 -> -32768 <= be -> be + SearchParams.RFPScoreFactor <= 32767 -> al < v < be -> Pv.active (s_pv st') = [] -> fin_or_no_legal st b)).
 Proof.
   intros Hg Hs Ht Hd H. destruct fuel as [|f]; [discriminate H|]. cbn [alphaBeta] in H.
   destruct Hd as [-> | ->].
@@ -65,63 +66,80 @@ Qed.
 
 Definition pows : list Z := [1; 2; 4; 8; 16; 32; 64; 128; 256; 512; 1024].
 
+(* W = params.WindowSize.  With A = alpha + Inf, B = Inf - beta:
+     A + B <= 2 Inf - W (factor + 1),   2 A >= - W (factor + 1),   2 B >= - W (factor + 1) *)
 Definition win_ok (al be f : Z) : Prop :=
-  In f pows /\ (al + 10000) + (10000 - be) <= 19956 - 44 * f /\
-  - 22 * f - 22 <= al + 10000 /\ - 22 * f - 22 <= 10000 - be.
+  In f pows /\
+  (al + SearchParams.Inf) + (SearchParams.Inf - be) <= 2 * SearchParams.Inf - SearchParams.WindowSize * (f + 1) /\
+  - (SearchParams.WindowSize * (f + 1)) <= 2 * (al + SearchParams.Inf) /\
+  - (SearchParams.WindowSize * (f + 1)) <= 2 * (SearchParams.Inf - be).
+
+(* the generated parameter values enter by unfolding only: a retuned value re-proves as long as the
+   arithmetic facts below stay true (they are what the absence of int16 wrap needs) *)
+Ltac params := unfold win_ok, score_ok, SearchParams.Inf, SearchParams.WindowSize, SearchParams.RFPScoreFactor in *.
+
+Lemma wsize_16 : wrap16 SearchParams.WindowSize = SearchParams.WindowSize /\ 0 < SearchParams.WindowSize.
+Proof. vm_compute. split; reflexivity. Qed.
 
 Lemma pows_range f : In f pows -> 1 <= f <= 1024.
 Proof. unfold pows. cbn [In]. lia. Qed.
 
-Lemma win_range al be f : win_ok al be f -> -32768 <= al <= 9978 /\ -9978 <= be <= 32665.
-Proof. intros (Hf & H1 & H2 & H3). apply pows_range in Hf. lia. Qed.
+(* a side of the window that can still fail: the widening and the doubled factor stay small *)
+Lemma pows_alive f : In f pows -> SearchParams.WindowSize * (f + 1) <= 4 * SearchParams.Inf ->
+  In (f * 2) pows /\ SearchParams.WindowSize * f <= 32767 - SearchParams.Inf /\ f * 2 <= 32767.
+Proof.
+  unfold pows. params. cbn [In]. intros H Hle.
+  repeat (destruct H as [<-|H]; [first [split; [cbn; tauto|lia]|exfalso; lia]|]). destruct H.
+Qed.
 
-Lemma pows_small f : In f pows -> f <= 908 -> In (f * 2) pows /\ f <= 512.
-Proof. unfold pows. cbn [In]. intros H Hle. repeat (destruct H as [<-|H]; [cbn; split; [tauto|lia]|]). lia. Qed.
+(* every call of the loop: alpha, beta inside int16, beta + RFPScoreFactor too *)
+Lemma win_range al be f : win_ok al be f ->
+  -32768 <= al <= SearchParams.Inf /\ - SearchParams.Inf <= be /\ be + SearchParams.RFPScoreFactor <= 32767.
+Proof. intros (Hf & H1 & H2 & H3). apply pows_range in Hf. params. lia. Qed.
 
 Lemma win_init : win_ok (wrap16 (- SearchParams.Inf - 1)) (wrap16 (SearchParams.Inf + 1)) 1.
-Proof. vm_compute. split; [left; reflexivity|]. repeat split; discriminate. Qed.
+Proof. split; [left; reflexivity|]. vm_compute. repeat split; discriminate. Qed.
 
 Lemma win_next s : score_ok s -> win_ok (sub16 s (wrap16 SearchParams.WindowSize)) (add16 s (wrap16 SearchParams.WindowSize)) 1.
 Proof.
-  unfold score_ok, SearchParams.Inf. intros H. change (wrap16 SearchParams.WindowSize) with 44.
-  unfold sub16, add16. rewrite !wrap16_id by lia. split; [left; reflexivity|]. lia.
+  intros H. rewrite (proj1 wsize_16). unfold sub16, add16. params.
+  rewrite !wrap16_id by lia. split; [left; reflexivity|]. lia.
 Qed.
 
-Lemma win_low al be f : win_ok al be f -> -10000 <= al ->
-  win_ok (sub16 al (wrap16 (f * wrap16 SearchParams.WindowSize))) be (wrap16 (f * 2)).
-Proof.
-  intros (Hf & H1 & H2 & H3) Ha. change (wrap16 SearchParams.WindowSize) with 44.
-  destruct (pows_small f Hf ltac:(lia)) as [Hf2 Hle]. pose proof (pows_range f Hf) as Hr.
-  rewrite (wrap16_id (f * 44)) by lia. rewrite (wrap16_id (f * 2)) by lia.
-  unfold sub16. rewrite wrap16_id by lia. split; [exact Hf2|]. lia.
-Qed.
-
-Lemma win_high al be f : win_ok al be f -> be <= 10000 ->
-  win_ok al (add16 be (wrap16 (f * wrap16 SearchParams.WindowSize))) (wrap16 (f * 2)).
-Proof.
-  intros (Hf & H1 & H2 & H3) Hb. change (wrap16 SearchParams.WindowSize) with 44.
-  destruct (pows_small f Hf ltac:(lia)) as [Hf2 Hle]. pose proof (pows_range f Hf) as Hr.
-  rewrite (wrap16_id (f * 44)) by lia. rewrite (wrap16_id (f * 2)) by lia.
-  unfold add16. rewrite wrap16_id by lia. split; [exact Hf2|]. lia.
-Qed.
-
-(* ... and the int16 expressions of the loop are the mathematical ones *)
 Lemma win_low_eq al be f : win_ok al be f -> - SearchParams.Inf <= al ->
   sub16 al (wrap16 (f * wrap16 SearchParams.WindowSize)) = al - f * SearchParams.WindowSize /\ wrap16 (f * 2) = f * 2.
 Proof.
-  unfold SearchParams.Inf. intros (Hf & H1 & H2 & H3) Ha. change (wrap16 SearchParams.WindowSize) with 44. change SearchParams.WindowSize with 44.
-  destruct (pows_small f Hf ltac:(lia)) as [Hf2 Hle]. pose proof (pows_range f Hf) as Hr.
-  rewrite (wrap16_id (f * 44)) by lia. rewrite (wrap16_id (f * 2)) by lia.
-  unfold sub16. rewrite wrap16_id by lia. split; reflexivity.
+  intros (Hf & H1 & H2 & H3) Ha. rewrite (proj1 wsize_16).
+  destruct (pows_alive f Hf ltac:(lia)) as (Hf2 & Hle & Hd). pose proof (pows_range f Hf) as Hr. pose proof (proj2 wsize_16) as Hw.
+  assert (Hpos : 0 <= f * SearchParams.WindowSize) by nia.
+  rewrite (wrap16_id (f * SearchParams.WindowSize)) by (unfold SearchParams.Inf in *; lia).
+  rewrite (wrap16_id (f * 2)) by lia. unfold sub16. rewrite wrap16_id by (unfold SearchParams.Inf in *; lia). split; reflexivity.
 Qed.
 
 Lemma win_high_eq al be f : win_ok al be f -> be <= SearchParams.Inf ->
   add16 be (wrap16 (f * wrap16 SearchParams.WindowSize)) = be + f * SearchParams.WindowSize /\ wrap16 (f * 2) = f * 2.
 Proof.
-  unfold SearchParams.Inf. intros (Hf & H1 & H2 & H3) Hb. change (wrap16 SearchParams.WindowSize) with 44. change SearchParams.WindowSize with 44.
-  destruct (pows_small f Hf ltac:(lia)) as [Hf2 Hle]. pose proof (pows_range f Hf) as Hr.
-  rewrite (wrap16_id (f * 44)) by lia. rewrite (wrap16_id (f * 2)) by lia.
-  unfold add16. rewrite wrap16_id by lia. split; reflexivity.
+  intros (Hf & H1 & H2 & H3) Hb. rewrite (proj1 wsize_16).
+  destruct (pows_alive f Hf ltac:(lia)) as (Hf2 & Hle & Hd). pose proof (pows_range f Hf) as Hr. pose proof (proj2 wsize_16) as Hw.
+  assert (Hpos : 0 <= f * SearchParams.WindowSize) by nia.
+  rewrite (wrap16_id (f * SearchParams.WindowSize)) by (unfold SearchParams.Inf in *; lia).
+  rewrite (wrap16_id (f * 2)) by lia. unfold add16. rewrite wrap16_id by (unfold SearchParams.Inf in *; lia). split; reflexivity.
+Qed.
+
+Lemma win_low al be f : win_ok al be f -> - SearchParams.Inf <= al ->
+  win_ok (sub16 al (wrap16 (f * wrap16 SearchParams.WindowSize))) be (wrap16 (f * 2)).
+Proof.
+  intros Hw Ha. destruct (win_low_eq al be f Hw Ha) as [-> ->]. destruct Hw as (Hf & H1 & H2 & H3).
+  destruct (pows_alive f Hf ltac:(lia)) as (Hf2 & _). pose proof (pows_range f Hf) as Hr. pose proof (proj2 wsize_16) as Hw.
+  split; [exact Hf2|]. nia.
+Qed.
+
+Lemma win_high al be f : win_ok al be f -> be <= SearchParams.Inf ->
+  win_ok al (add16 be (wrap16 (f * wrap16 SearchParams.WindowSize))) (wrap16 (f * 2)).
+Proof.
+  intros Hw Hb. destruct (win_high_eq al be f Hw Hb) as [-> ->]. destruct Hw as (Hf & H1 & H2 & H3).
+  destruct (pows_alive f Hf ltac:(lia)) as (Hf2 & _). pose proof (pows_range f Hf) as Hr. pose proof (proj2 wsize_16) as Hw.
+  split; [exact Hf2|]. nia.
 Qed.
 
 (* ------------------------------------------------------------------------------------------ *)
@@ -156,12 +174,12 @@ Section DeepenVal.
     destruct (s_aborted st1) eqn:A; [walk; split; [exact A|exact HJ1]|].
     destruct (Hv eq_refl) as [Hsc Hfin]. unfold score_ok, SearchParams.Inf in Hsc.
     destruct (s <=? al) eqn:C1.
-    { apply Z.leb_le in C1. eapply IH; [exact Hg|exact HJ1|exact Hd| |exact H]. apply win_low; [exact Hw|lia]. }
+    { apply Z.leb_le in C1. eapply IH; [exact Hg|exact HJ1|exact Hd| |exact H]. apply win_low; [exact Hw|unfold SearchParams.Inf; lia]. }
     destruct (be <=? s) eqn:C2.
-    { apply Z.leb_le in C2. eapply IH; [exact Hg|exact HJ1|exact Hd| |exact H]. apply win_high; [exact Hw|lia]. }
+    { apply Z.leb_le in C2. eapply IH; [exact Hg|exact HJ1|exact Hd| |exact H]. apply win_high; [exact Hw|unfold SearchParams.Inf; lia]. }
     walk. apply Z.leb_gt in C1, C2. split; [exact HJ1|]. split; [exact Hsc|]. intros Hd1 Hpv.
-    pose proof (win_range _ _ _ Hw) as [_ Hbe].
-    destruct (Hfin Hd1 ltac:(lia) ltac:(lia) Hpv) as [F|[F|F]]; [left; exact F|right; left; exact F|].
+    pose proof (win_range _ _ _ Hw) as (_ & Hbe1 & Hbe2). unfold SearchParams.Inf in Hbe1.
+    destruct (Hfin Hd1 ltac:(lia) Hbe2 ltac:(lia) Hpv) as [F|[F|F]]; [left; exact F|right; left; exact F|].
     right. right. exists st. split; [|exact F]. split; [exact Hs|split; [exact Ht|split; [exact Hh|exact Hr]]].
   Qed.
 
